@@ -237,7 +237,7 @@ func genCase(r *core.Rand) *kase {
 }
 
 func (p *prop) Generate(rng *core.Rand, tier string, emit func(string)) {
-	n := 30000
+	n := 20000
 	switch tier {
 	case "thorough":
 		n = 250000
